@@ -28,7 +28,7 @@ for p in props:
         na.append(dict(property_id=p, reason=meta.get('not_applicable', {}).get(p, "check not built yet in this session; the design (DESIGN.md §5) claims it and it will be registered when its harness exists")))
 man = dict(
     version=1,
-    setup_cmd="mkdir -p /verif/.build && cd /verif/harness && for p in props/*/; do GOFLAGS=-mod=mod GOPROXY=off go test -c -tags verif -o /verif/.build/$(basename $p).test ./$p || exit 1; done",
+    setup_cmd="mkdir -p /verif/.build && cd /verif/harness && for p in props/*/; do GOFLAGS=-mod=mod GOPROXY=off go test -c -tags verif -o /verif/.build/$(basename $p).test ./$p || echo \"setup: build of $p failed (the check that needs it will report it)\"; done; true",
     hooks=meta['hooks'],
     engines=[dict(name="harness", path="/verif/harness", serves_properties=[c['property_id'] for c in checks],
                   kind_free_text="Go module using pgregory.net/rapid v1.3.0 (generators, shrinking), exhaustive sweeps and native go fuzzing; python3 driver /verif/check shards, merges evidence, handles replays and known findings")],
